@@ -61,6 +61,22 @@ def fix_pair(p):
     return p
 
 
+def buildable(pairs, wd):
+    """drop pairs whose grammar the library (rightly) refuses to build a table for, e.g. an
+    accept/reduce conflict from S: A; A: S - CT and RT both fail on those, there is nothing to compare"""
+    job = os.path.join(wd, "pairs-job.json")
+    out = os.path.join(wd, "pairs-digest.ndjson")
+    with open(job, "w") as f:
+        json.dump(dict(instances=[dict(id=p["id"], y=render_pair(p)[0], kind=p["kind"]) for p in pairs]), f)
+    core.run_vh(["digest", job, out])
+    bad = set()
+    for line in open(out):
+        e = json.loads(line)
+        if "ERR" in e["digest"] or "PANIC" in e["digest"]:
+            bad.add(e["id"])
+    return [p for p in pairs if p["id"] not in bad]
+
+
 def action_text(pair, pid, rhs):
     """a recording action: production id, $span, every $k (Ok / Err lexeme or child value), the
     text under the span through $lexer, and a literal dollar sign"""
@@ -274,7 +290,7 @@ def gen_crate(d, pairs, inputs):
     os.makedirs(os.path.join(d, "src"))
     os.makedirs(os.path.join(d, ".cargo"))
     shutil.copy(os.path.join(core.VERIF, "harness", "Cargo.lock"), os.path.join(d, "Cargo.lock"))
-    repo = "/repo"
+    repo = os.environ.get("VERIF_REPO_DIR", "/repo")
     # the scratch-repository override used when evaluating seeded changes
     ht = open(os.path.join(core.HARNESS, "Cargo.toml")).read()
     import re
@@ -394,8 +410,8 @@ def main(pid, tier, replay=None):
     rng = random.Random(seed * 29 + 13)
     core.build_harness()
     n = 40 if tier == "thorough" else 8
-    pairs = [gen_pair(rng, i) for i in range(n)]
-    pairs = [fix_pair(p) for p in pairs]
+    pairs = [gen_pair(rng, i) for i in range(2 * n)]
+    pairs = buildable([fix_pair(p) for p in pairs], res.wd)[:n]
     inputs = {p["id"]: gen_inputs(p, rng, 80 if tier == "thorough" else 28) for p in pairs}
     d = os.path.join(res.wd, "ctgen")
     gen_crate(d, pairs, inputs)
